@@ -16,14 +16,37 @@ func Cross(a, b, c P2) float64 {
 // of its own rounding error (differences and products each rounded once, nothing near the underflow range), the
 // rational computation otherwise. (A cross product of 0.5 * 2^-1074 rounds to zero: thorough tier, seed 7.)
 func OrientSign(a, b, c P2) int {
-	t1 := (float64(b[0]) - float64(a[0])) * (float64(c[1]) - float64(a[1]))
-	t2 := (float64(b[1]) - float64(a[1])) * (float64(c[0]) - float64(a[0]))
+	dx1, dy2 := float64(b[0])-float64(a[0]), float64(c[1])-float64(a[1])
+	dy1, dx2 := float64(b[1])-float64(a[1]), float64(c[0])-float64(a[0])
+	t1, t2 := dx1*dy2, dy1*dx2
 	det, mag := t1-t2, math.Abs(t1)+math.Abs(t2)
 	if mag > 1e-280 && mag < 1e300 && math.Abs(det) > 1e-14*mag {
 		if det > 0 {
 			return 1
 		}
 		return -1
+	}
+	// lattice coordinates (collinear points, axis-parallel edges) end up here all the time: when the four differences
+	// and the two products carry no rounding error at all (checked with the error terms of TwoSum and of the fused
+	// multiply-add) the floating-point value is the exact one. (A difference of floats is zero only for equal operands.)
+	if (dx1 == 0 || dy2 == 0) && (dy1 == 0 || dx2 == 0) && !math.IsNaN(det) {
+		return 0
+	}
+	exactDiff := func(x, y, d float64) bool { // d == x - y without rounding error
+		yy := x - d
+		return (x-(d+yy))+(yy-y) == 0 && !math.IsInf(d, 0)
+	}
+	if mag < 1e300 && (dx1 == 0 || dy2 == 0 || math.Abs(t1) > 1e-280) && (dy1 == 0 || dx2 == 0 || math.Abs(t2) > 1e-280) &&
+		exactDiff(float64(b[0]), float64(a[0]), dx1) && exactDiff(float64(c[1]), float64(a[1]), dy2) &&
+		exactDiff(float64(b[1]), float64(a[1]), dy1) && exactDiff(float64(c[0]), float64(a[0]), dx2) &&
+		math.FMA(dx1, dy2, -t1) == 0 && math.FMA(dy1, dx2, -t2) == 0 {
+		switch {
+		case t1 > t2:
+			return 1
+		case t1 < t2:
+			return -1
+		}
+		return 0
 	}
 	return ExactOrient(a, b, c)
 }
